@@ -52,7 +52,8 @@ FieldSites(P, j, i) == LET f == P.pkts[j].fields[i] IN
 \cup (IF f.k \in {"int", "float", "dyn", "fix", "len", "ck", "meta", "obj"} THEN {<<"doc", j, i>>} ELSE {})
 Sites(P) == UNION { UNION { FieldSites(P, j, i) : i \in 1..Len(P.pkts[j].fields) } : j \in 1..Len(P.pkts) }
             \cup { <<"defopt1", 0, k>> : k \in 1..4 }
-            \cup { <<"defopts", 0, 0>>, <<"nosemi", 0, 0>>, <<"comments", 0, 0>>, <<"relayout", 0, 0>>, <<"inlineall", 0, 0>> }
+            \cup { <<"defopts", 0, 0>>, <<"nosemi", 0, 0>>, <<"comments", 0, 0>>, <<"relayout", 0, 0>>, <<"inlineall", 0, 0>>,
+                   <<"metalast", 0, 0>> }      \* the MetaData block written below the packets that use it
 
 \* the structural rewrites change the abstract program; the textual ones only its rendering
 Inlined(P, f) == LET r == Res(P, f) IN [r EXCEPT !.pad = IF f.pad # "none" THEN f.pad ELSE r.pad]
